@@ -212,13 +212,24 @@ def _check_pathloss(ctx: Ctx) -> None:
         factors: List[T.Term] = []
         guarded = True
         env = T.Env(M, fn)
+        env.vars.update(T.local_terms(M, fn))
         for n in walk_no_nested(fn.node):
             f = None
             if isinstance(n, ast.AugAssign) and isinstance(n.op, ast.Mult):
                 f = n.value
             elif isinstance(n, (ast.Return, ast.Assign)) and isinstance(n.value, ast.BinOp) and isinstance(n.value.op, ast.Mult):
                 l, r = n.value.left, n.value.right
-                if any(isinstance(c, ast.Call) and norm(c.func) == 'self._tdlchannel.' + target for c in ast.walk(r)) or isinstance(r, ast.Name):
+                fwd_names = {x.targets[0].id for x in walk_no_nested(fn.node) if isinstance(x, ast.Assign) and isinstance(x.targets[0], ast.Name)
+                             and any(isinstance(c, ast.Call) and norm(c.func) == 'self._tdlchannel.' + target for c in ast.walk(x.value))}
+
+                def is_fwd(e_: ast.AST) -> bool:
+                    return any(isinstance(c, ast.Call) and norm(c.func) == 'self._tdlchannel.' + target for c in ast.walk(e_)) or \
+                        (isinstance(e_, ast.Name) and e_.id in fwd_names)
+                if is_fwd(r) and not is_fwd(l):
+                    f = l
+                elif is_fwd(l) and not is_fwd(r):
+                    f = r
+                elif isinstance(r, ast.Name):
                     f = l
                 else:
                     f = r
